@@ -34,18 +34,18 @@ func C05(r *core.Report) {
 		}
 	}
 	r.Floor("C05.R1", 6)
-	r.Floor("C05.R2", 10)
-	r.Floor("C05.R3", 2)
+	r.Floor("C05.R2", 5)
+	r.Floor("C05.R3", 1)
 	r.Floor("C05.R4", 2)
 	r.Floor("C05.R5", 2)
-	r.Floor("C05.R6", 4)
+	r.Floor("C05.R6", 2)
 	r.Floor("C05.R7", 4)
 	c05PutAlwaysStores(r)
 	c05DedupHasNoSentinel(r)
 	c05EmptyBucketSentinelAgrees(r)
-	r.Floor("C05.R10", 2)
+	r.Floor("C05.R10", 1)
 	r.Floor("C05.R9", 1)
-	r.Floor("C05.R8", 2)
+	r.Floor("C05.R8", 1)
 }
 
 func c05HashAndPrefix(r *core.Report, pk string) {
